@@ -49,6 +49,23 @@ def status():
                       getattr(mod, "LEVEL_NOTE", ""), pid))
     return "\n".join(out)
 
+def table_translators():
+    import ast as _ast
+    rows = []
+    for tp in sorted(glob.glob(os.path.join(ROOT, "translators", "c*_src.py"))):
+        pid = os.path.basename(tp)[:3].upper()
+        try:
+            doc = _ast.get_docstring(_ast.parse(open(tp).read())) or ""
+        except Exception:
+            doc = ""
+        first = " ".join(doc.split("\n\n")[0].split())[:420]
+        gen = [os.path.relpath(g, ROOT) for g in sorted(glob.glob(os.path.join(ROOT, "coq", "Gen", pid + "_*.v")))]
+        if pid == "C07":
+            gen = ["coq/C07/SrcGen.v", "coq/C07/SrcEquiv.v"]
+        rows.append("| %s | `translators/%s` | %s | %s |" % (pid, os.path.basename(tp), first.replace("|", "\\|"), ", ".join("`%s`" % g for g in gen)))
+    return "| Prop | translator | what it reads (from its docstring) | generated / equivalence files |\n|---|---|---|---|\n" + "\n".join(rows)
+
+put("TRANSLATORS", table_translators())
 put("FIXED", table_fixed())
 put("STATUS", status())
 put("OPEN", table_open())
